@@ -48,17 +48,80 @@ def cs_of(t):
     return (1 - t * t) / (1 + t * t), 2 * t / (1 + t * t)
 
 
-def angle_of(t):
-    """angle whose cos, sin are cs_of(t)"""
-    return 2 * math.atan(float(t))
+def approx(x):
+    """rational within 1e-15 of a float (used only where cos/sin are irrational)"""
+    return F(int(round(x * 10 ** 15)), 10 ** 15)
 
 
-def phase_angle(e):
-    return math.atan2(float(e[1]), float(e[0]))
-
-
-def bs_block(t, e):
+def ang_t(t):
+    """generic angle 2*atan(t) with rational cos and sin"""
     c, s = cs_of(t)
+    return {"c": c, "s": s, "a": 2 * math.atan(float(t)), "tag": "2atan(%s)" % t}
+
+
+def ang_pyth(e):
+    return {"c": e[0], "s": e[1], "a": math.atan2(float(e[1]), float(e[0])), "tag": "pyth"}
+
+
+def ang_float(a, tag, exact=None, scale=1.0):
+    """angle given as the float handed to the code; the model gets cos/sin of a*scale (exact
+    where rational, otherwise a 1e-15 rational approximation)"""
+    if exact is not None:
+        c, s = F(exact[0]), F(exact[1])
+    else:
+        c, s = approx(math.cos(a * scale)), approx(math.sin(a * scale))
+    return {"c": c, "s": s, "a": a, "tag": tag}
+
+
+QUARTER = [(1, 0), (0, 1), (-1, 0), (0, -1)]
+TINY = F(1, 10 ** 12)
+
+
+def special_angles(scale=1.0):
+    """special values of an angle parameter x (the model uses cos/sin of x*scale)"""
+    out = [ang_float(0.0, "0", (1, 0), scale),
+           {"c": F(1), "s": TINY * F(scale), "a": 1e-12, "tag": "+1e-12"},
+           {"c": F(1), "s": -TINY * F(scale), "a": -1e-12, "tag": "-1e-12"}]
+    for k in (1, -1, 2, 3, 4, -4, 8):
+        a = k * math.pi / 2
+        if scale == 1.0:
+            ex = QUARTER[k % 4]
+        elif scale == 0.5 and k % 2 == 0:
+            ex = QUARTER[(k // 2) % 4]
+        else:
+            ex = None
+        out.append(ang_float(a, "%d*pi/2" % k, ex, scale))
+    out += [ang_float(10.0, "10", None, scale), ang_float(-10.0, "-10", None, scale),
+            ang_float(-0.7, "-0.7", None, scale)]
+    return out
+
+
+def pick_angle(rng, ts, scale=1.0, special=0.25):
+    if rng.random() < special:
+        return rng.choice(special_angles(scale))
+    a = ang_t(rng.choice(ts))
+    if scale != 1.0:   # the parameter is 1/scale times the modelled angle
+        a = dict(a, a=a["a"] / scale)
+    return a
+
+
+def pick_phase(rng, special=0.25):
+    if rng.random() < special:
+        return rng.choice(special_angles())
+    return ang_pyth(rng.choice(PYTH))
+
+
+def e_of(ph):
+    return (ph["c"], ph["s"])
+
+
+def bs_block(th, e):
+    """[[t, -conj r], [r, t]] with t = cos(theta), r = e^{i phi} sin(theta); th is an angle
+    specification or a rational t of the half-angle parametrisation, e a unit complex pair"""
+    if isinstance(th, dict):
+        c, s = th["c"], th["s"]
+    else:
+        c, s = cs_of(th)
     r = cmul(e, (s, F(0)))
     return [[(c, F(0)), cneg(cconj(r))], [r, (c, F(0))]]
 
@@ -181,7 +244,7 @@ def consecutive_runs(d, k):
     return [tuple(range(a, a + k)) for a in range(0, d - k + 1)]
 
 
-def gen_gate(rng, d, kinds):
+def gen_gate(rng, d, kinds, special=0.25):
     while True:
         k = rng.choice(kinds)
         if k == "I":
@@ -189,20 +252,57 @@ def gen_gate(rng, d, kinds):
             modes = rng.choice(consecutive_runs(d, size))
             return {"g": "I", "modes": list(modes), "Ux": rand_unitary(rng, size, rich=rng.random() < 0.6)}
         if k == "PS":
-            return {"g": "PS", "modes": [rng.randrange(d)], "e": rng.choice(PYTH[1:])}
+            return {"g": "PS", "modes": [rng.randrange(d)], "ph": pick_phase(rng, special)}
         if d < 2:
             continue
         a = rng.randrange(d - 1)
         if k == "BS":
-            return {"g": "BS", "modes": [a, a + 1], "t": rng.choice(TS), "e": rng.choice(PYTH)}
+            return {"g": "BS", "modes": [a, a + 1], "th": pick_angle(rng, TS, 1.0, special), "ph": pick_phase(rng, special)}
         if k == "SQ2":
-            return {"g": "SQ2", "modes": [a, a + 1], "t": rng.choice(TS[:12]), "e": rng.choice(PYTH)}
+            return {"g": "SQ2", "modes": [a, a + 1], "r": pick_angle(rng, TS[:12], 0.5, special), "ph": pick_phase(rng, special)}
         if k == "XX":
-            return {"g": "XX", "modes": [a, a + 1], "t": rng.choice(TS[:12])}
+            return {"g": "XX", "modes": [a, a + 1], "ph": pick_angle(rng, TS[:12], 1.0, special)}
         if k == "CP":
             b = rng.randrange(d)
             c = rng.choice([x for x in range(d) if x != b])
-            return {"g": "CP", "modes": [b, c], "e": rng.choice(PYTH[1:])}
+            return {"g": "CP", "modes": [b, c], "ph": pick_phase(rng, special)}
+
+
+# (gate kind, parameter name, scale of the modelled angle) of every real parameter
+PARAMS = [("BS", "th", 1.0), ("BS", "ph", 1.0), ("PS", "ph", 1.0), ("SQ2", "r", 0.5),
+          ("SQ2", "ph", 1.0), ("XX", "ph", 1.0), ("CP", "ph", 1.0)]
+
+
+def special_programs(rng, thorough):
+    """every parameter of every gate at every special value, alone and inside a 3-gate program
+    (the position of the special gate rotates; all positions in the thorough tier)"""
+    progs = []
+    idx = 0
+    for kind, par, scale in PARAMS:
+        for sp in special_angles(scale):
+            idx += 1
+            for pos in ((0, 1, 2, None) if thorough else (idx % 3, None)):
+                d = rng.choice((2, 3, 3, 4) if thorough else (2, 3, 3)) if pos is not None else rng.choice((2, 3))
+                g = gen_gate(rng, d, [kind], special=0.0)
+                g[par] = sp
+                if pos is None:
+                    gates = [g]
+                else:
+                    others = ["BS", "SQ2", "XX", "PS", "I"] if kind != "CP" else ["BS", "SQ2", "XX", "CP"]
+                    gates = [gen_gate(rng, d, others, special=0.0) for _ in range(2)]
+                    gates.insert(pos, g)
+                occ = [rng.randint(0, 1) for _ in range(d)]
+                if pos is None and kind in ("SQ2", "XX"):
+                    occ[g["modes"][0]] = occ[g["modes"][1]] = rng.randint(0, 1)
+                if any(x["g"] == "CP" for x in gates):
+                    label = "fock-only"
+                elif all(x["g"] in ("I", "BS", "PS") for x in gates):
+                    label = "passive"
+                else:
+                    label = "mixed"
+                progs.append({"d": d, "occ": occ, "gates": gates, "label": label,
+                              "special": "%s.%s=%s@%s" % (kind, par, sp["tag"], pos)})
+    return progs
 
 
 def gate_request(g):
@@ -211,15 +311,13 @@ def gate_request(g):
     if g["g"] == "I":
         r["U"] = tofloat(g["Ux"])
     elif g["g"] == "BS":
-        r["theta"] = angle_of(g["t"])
-        r["phi"] = phase_angle(g["e"])
-    elif g["g"] in ("PS", "CP"):
-        r["phi"] = phase_angle(g["e"])
+        r["theta"] = g["th"]["a"]
+        r["phi"] = g["ph"]["a"]
+    elif g["g"] in ("PS", "CP", "XX"):
+        r["phi"] = g["ph"]["a"]
     elif g["g"] == "SQ2":
-        r["r"] = 2 * angle_of(g["t"])
-        r["phi"] = phase_angle(g["e"])
-    elif g["g"] == "XX":
-        r["phi"] = angle_of(g["t"])
+        r["r"] = g["r"]["a"]
+        r["phi"] = g["ph"]["a"]
     return r
 
 
@@ -227,9 +325,9 @@ def passive_block(g):
     if g["g"] == "I":
         return g["Ux"]
     if g["g"] == "BS":
-        return bs_block(g["t"], g["e"])
+        return bs_block(g["th"], e_of(g["ph"]))
     if g["g"] == "PS":
-        return [[g["e"]]]
+        return [[e_of(g["ph"])]]
     return None
 
 
@@ -238,21 +336,29 @@ def gate_coq(g):
     if g["g"] in ("I", "BS", "PS"):
         return "GPassive %s %s" % (m, cmat(passive_block(g)))
     if g["g"] == "SQ2":
-        c, s = cs_of(g["t"])
-        return "GSqueezing2 %s %s %s %s %s" % (m, cqi((c, F(0))), cqi((s, F(0))), cqi(g["e"]), cqi(cconj(g["e"])))
+        c, s = g["r"]["c"], g["r"]["s"]      # cos(r/2), sin(r/2)
+        e = e_of(g["ph"])
+        return "GSqueezing2 %s %s %s %s %s" % (m, cqi((c, F(0))), cqi((s, F(0))), cqi(e), cqi(cconj(e)))
     if g["g"] == "CP":
-        return "GCPhase %s %s" % (m, cqi(g["e"]))
+        return "GCPhase %s %s" % (m, cqi(e_of(g["ph"])))
     if g["g"] == "XX":
-        c, s = cs_of(g["t"])
-        return "GIsingXX %s %s %s" % (m, cqi((c, F(0))), cqi((F(0), s)))
+        return "GIsingXX %s %s %s" % (m, cqi((g["ph"]["c"], F(0))), cqi((F(0), g["ph"]["s"])))
     raise ValueError(g)
 
 
 def describe(p):
-    return {"d": p["d"], "occ": p["occ"],
-            "gates": [{k: (str(v) if k in ("t",) else ([str(x) for x in v] if k == "e" else
-                           ([[[str(z[0]), str(z[1])] for z in row] for row in v] if k == "Ux" else v)))
-                       for k, v in g.items()} for g in p["gates"]]}
+    """JSON-able form of a program (read back by corpus_program)"""
+    def val(k, v):
+        if k == "Ux":
+            return [[[str(z[0]), str(z[1])] for z in row] for row in v]
+        if isinstance(v, dict):
+            return {"c": str(v["c"]), "s": str(v["s"]), "a": v["a"], "tag": v.get("tag", "")}
+        return v
+    out = {"d": p["d"], "occ": p["occ"], "label": p.get("label", "mixed"),
+           "gates": [{k: val(k, v) for k, v in g.items()} for g in p["gates"]]}
+    if "special" in p:
+        out["special"] = p["special"]
+    return out
 
 
 def gen_programs(rng, thorough):
@@ -292,19 +398,148 @@ def load_corpus():
 
 
 def corpus_program(c):
-    def unf(x):
-        return F(x)
     gates = []
     for g in c["gates"]:
         g = dict(g)
-        if "t" in g:
-            g["t"] = unf(g["t"])
-        if "e" in g:
-            g["e"] = (unf(g["e"][0]), unf(g["e"][1]))
-        if "Ux" in g:
-            g["Ux"] = [[(unf(z[0]), unf(z[1])) for z in row] for row in g["Ux"]]
+        for k, v in list(g.items()):
+            if k == "Ux":
+                g[k] = [[(F(z[0]), F(z[1])) for z in row] for row in v]
+            elif isinstance(v, dict):
+                g[k] = {"c": F(v["c"]), "s": F(v["s"]), "a": float(v["a"]), "tag": v.get("tag", "")}
         gates.append(g)
-    return {"d": c["d"], "occ": c["occ"], "gates": gates, "label": c.get("label", "mixed")}
+    p = {"d": c["d"], "occ": c["occ"], "gates": gates, "label": c.get("label", "mixed")}
+    if "special" in c:
+        p["special"] = c["special"]
+    return p
+
+
+def finite(x):
+    if isinstance(x, (list, tuple)):
+        return all(finite(y) for y in x)
+    return isinstance(x, (int, float)) and math.isfinite(x)
+
+
+def exc_class(msg):
+    return msg.split(":", 1)[0]
+
+
+def judge_program(chk, p, o):
+    """The property stated on the implementation for one program; returns (evaluations,
+    differential comparisons).  A program one simulator executes and the other refuses, or for
+    which one returns non-finite numbers, violates 'both give the same covariance matrix and
+    occupation probabilities' unless both refuse with the same exception class."""
+    d = p["d"]
+    neval = 0
+    kinds = "+".join(sorted({g["g"] for g in p["gates"]}))
+    both = p["label"] != "fock-only"
+    ferr, gerr = o.get("fock_error"), (o.get("gaussian_error") if both else None)
+    if ferr and gerr:
+        if exc_class(ferr) == exc_class(gerr):
+            chk.notes.append("both simulators refuse identically (%s): %s" % (exc_class(ferr), json.dumps(describe(p))[:300]))
+        else:
+            chk.violation("C17:differential:refusal-mismatch:%s" % kinds, "the simulators refuse differently: Fock %s / Gaussian %s" % (ferr, gerr), {"program": describe(p)})
+        return 1, 0
+    if ferr:
+        chk.violation("C17:PureFockSimulator:raises:%s" % kinds,
+                      ("only the Fock simulator refuses the program: " if both else "supported program raises: ") + ferr, {"program": describe(p)})
+        return 1, 0
+    if not finite([o["state"], o["probs"], o["cov"], o["norm"]]):
+        chk.violation("C17:PureFockSimulator:non-finite:%s" % kinds, "state vector / probabilities / covariance contain NaN or inf", {"program": describe(p)})
+        return 1, 0
+    keys = [tuple(k) for k in o["keys"]]
+    neval += len(keys)
+    if sorted(keys) != sorted(itertools.product((0, 1), repeat=d)) or keys != basis(d):
+        chk.violation("C17:fock_probabilities_map:keys", "occupation keys are not every 0/1 vector once, in Fock order", {"program": describe(p)})
+    if abs(sum(o["probs"]) - 1) > TOL or abs(o["norm"] - 1) > TOL or o["probs_imag"] > TOL or min(o["probs"]) < -TOL:
+        chk.violation("C17:PureFockSimulator:normalisation:%s" % kinds, "probabilities do not sum to one", {"program": describe(p), "sum": sum(o["probs"])})
+    if any(abs(x - y) > TOL for x, y in zip(o["probs"], o["pdp"])):
+        chk.violation("C17:PureFockState.get_particle_detection_probability", "differs from fock_probabilities_map", {"program": describe(p)})
+    par = sum(p["occ"]) % 2
+    bad = [k for k, pr in zip(keys, o["probs"]) if sum(k) % 2 != par and abs(pr) > 1e-12]
+    if bad:
+        chk.violation("C17:PureFockSimulator:parity:%s" % kinds, "weight on the wrong particle-number parity", {"program": describe(p), "occupations": bad[:4]})
+    gauss_ok = both and not gerr and finite([o.get("gcov"), o.get("gprobs"), o.get("gmean")])
+    if p["label"] == "passive":
+        bad = [k for k, pr in zip(keys, o["probs"]) if sum(k) != sum(p["occ"]) and abs(pr) > 1e-12]
+        if bad:
+            chk.violation("C17:PureFockSimulator:number:%s" % kinds, "passive program changes the particle number", {"program": describe(p), "occupations": bad[:4]})
+        Tm = identity(d)
+        for g in p["gates"]:
+            Tm = mat_mul(embed(d, g["modes"], passive_block(g)), Tm)
+        S = fq(p["occ"])
+        for k, pr, gp in zip(keys, o["probs"], o["gprobs"] if gauss_ok else o["probs"]):
+            if sum(k) == len(S):
+                m = minor(Tm, fq(k), S)
+                ex = m[0] * m[0] + m[1] * m[1]
+                neval += 1
+                if not close(ex, pr):
+                    chk.violation("C17:PureFockSimulator:passive-probability:%s" % kinds, "probability != |det U[out,in]|^2", {"program": describe(p), "out": k, "got": pr, "expected": float(ex)})
+                    break
+                if not close(ex, gp):
+                    chk.violation("C17:GaussianSimulator:passive-probability:%s" % kinds, "probability != |det U[out,in]|^2", {"program": describe(p), "out": k, "got": gp, "expected": float(ex)})
+                    break
+    if not both:
+        return neval, 0
+    if gerr:
+        chk.violation("C17:GaussianSimulator:raises:%s" % kinds,
+                      "only the Gaussian simulator refuses the program (the Fock simulator executes it): " + gerr, {"program": describe(p)})
+        return neval, 1
+    if not gauss_ok:
+        chk.violation("C17:GaussianSimulator:non-finite:%s" % kinds, "covariance matrix / probabilities contain NaN or inf while the Fock simulator returns finite values", {"program": describe(p)})
+        return neval, 1
+    cov, gcov = o["cov"], o["gcov"]
+    n2 = 2 * d
+    neval += n2 * n2 + len(keys)
+    err = max(abs(cov[i][j] - gcov[i][j]) for i in range(n2) for j in range(n2))
+    if err > 1e-8:
+        chk.violation("C17:covariance:fock-vs-gaussian:%s" % kinds, "covariance matrices of the two simulators differ (max abs diff %.3g)" % err, {"program": describe(p), "fock": cov, "gaussian": gcov})
+    skew = max(abs(gcov[i][j] + gcov[j][i]) for i in range(n2) for j in range(n2))
+    if skew > 1e-8:
+        chk.violation("C17:GaussianState.covariance_matrix:skew", "not skew-symmetric", {"program": describe(p)})
+    perr = max(abs(x - y) for x, y in zip(o["probs"], o["gprobs"]))
+    if perr > 1e-8:
+        chk.violation("C17:probabilities:fock-vs-gaussian:%s" % kinds, "occupation probabilities of the two simulators differ (max abs diff %.3g)" % perr, {"program": describe(p), "fock": o["probs"], "gaussian": o["gprobs"]})
+    if abs(sum(o["gprobs"]) - 1) > 1e-8:
+        chk.violation("C17:GaussianSimulator:normalisation:%s" % kinds, "Gaussian occupation probabilities do not sum to one", {"program": describe(p), "sum": sum(o["gprobs"])})
+    mean_f = [sum(pr * k[m] for k, pr in zip(keys, o["probs"])) for m in range(d)]
+    if max(abs(x - y) for x, y in zip(mean_f, o["gmean"])) > 1e-8:
+        chk.violation("C17:mean_particle_numbers:fock-vs-gaussian:%s" % kinds, "mean occupation differs", {"program": describe(p), "fock": mean_f, "gaussian": o["gmean"]})
+    return neval, 1
+
+
+def program_request(p):
+    return {"d": p["d"], "occ": p["occ"], "gates": [gate_request(g) for g in p["gates"]],
+            "gaussian": p["label"] != "fock-only"}
+
+
+def replay(chk: Check, path):
+    """./check C17 --replay <file>: re-run the programs recorded in a replay file on the
+    implementation and judge them again; violations without a program re-run the whole check."""
+    data = json.load(open(path))
+    progs = []
+    for v in data.get("violations", []):
+        w = v.get("witness") or {}
+        prog = w.get("program") if isinstance(w, dict) else None
+        if prog is None and isinstance(w, dict) and "gates" in w:
+            prog = w
+        if prog is None:
+            return run(chk)
+        progs.append(corpus_program(prog))
+    if not progs:
+        return run(chk)
+    seen, uniq = set(), []
+    for p in progs:
+        k = json.dumps(describe(p), sort_keys=True)
+        if k not in seen:
+            seen.add(k)
+            uniq.append(p)
+    impl = run_impl("c17_impl.py", {"programs": [program_request(p) for p in uniq]}, timeout=3000)
+    neval = 0
+    for p, o in zip(uniq, impl["programs"]):
+        neval += judge_program(chk, p, o)[0]
+    chk.stream("replayed programs judged on the implementation (search)", neval, len(uniq), kind="search",
+               samples=[describe(uniq[0])])
+    chk.finish(rule="programs of the replay file", explanation="replay of %s: the recorded programs are executed again on both simulators and judged by the direct statement of the property" % path)
 
 
 # ----------------------------------------------------------------------------- the check
@@ -358,22 +593,21 @@ def run(chk: Check):
                 for c in (sorted({d + 1, max(1, d - 1), 2}) if (T or d <= 3) else [d + 1]):
                     il_cases.append({"d": d, "cutoff": c, "modes": list(modes)})
 
-    programs = [corpus_program(c) for c in load_corpus()] + gen_programs(rng, T)
+    programs = [corpus_program(c) for c in load_corpus()] + special_programs(rng, T) + gen_programs(rng, T)
 
     # outside the property's quantifier (recorded, never a violation): Ising-XX on descending or
     # non-adjacent modes
     probes = [
-        {"d": 2, "occ": [1, 1], "gates": [{"g": "XX", "modes": [1, 0], "t": F(1, 2)}], "label": "probe"},
-        {"d": 3, "occ": [1, 0, 0], "gates": [{"g": "XX", "modes": [2, 1], "t": F(1, 3)}], "label": "probe"},
-        {"d": 3, "occ": [1, 1, 0], "gates": [{"g": "XX", "modes": [0, 2], "t": F(1, 2)}], "label": "probe"},
+        {"d": 2, "occ": [1, 1], "gates": [{"g": "XX", "modes": [1, 0], "ph": ang_t(F(1, 2))}], "label": "probe"},
+        {"d": 3, "occ": [1, 0, 0], "gates": [{"g": "XX", "modes": [2, 1], "ph": ang_t(F(1, 3))}], "label": "probe"},
+        {"d": 3, "occ": [1, 1, 0], "gates": [{"g": "XX", "modes": [0, 2], "ph": ang_t(F(1, 2))}], "label": "probe"},
     ]
     req = {
         "probes": [{"d": p["d"], "occ": p["occ"], "gates": [gate_request(g) for g in p["gates"]], "gaussian": True} for p in probes],
         "rep": [{"d": r["d"], "cutoff": r["cutoff"], "U": tofloat(r["Ux"])} for r in rep_cases],
         "tables": tab_cases,
         "ilist": il_cases,
-        "programs": [{"d": p["d"], "occ": p["occ"], "gates": [gate_request(g) for g in p["gates"]],
-                      "gaussian": p["label"] != "fock-only"} for p in programs],
+        "programs": [program_request(p) for p in programs],
     }
     _t(chk, "generate")
     impl = run_impl("c17_impl.py", req, timeout=3000)
@@ -416,7 +650,7 @@ Eval vm_compute in mismatches ok cases.
 
     # ---------------- correspondence 2: index tables (exact)
     bodies, groups = [], []
-    chunk = 60
+    chunk = 60 if T else 35
     for i in range(0, len(tab_cases), chunk):
         items = ["(%d%%nat, %d, %s, %s, %s)" % (r["d"], r["cutoff"], clist(r["modes"]), clist(o["cp"]),
                                                 clist(o["xx"], clist))
@@ -442,7 +676,7 @@ Definition ok (x : list Z * nat * nat * list (list (list Z))) : bool :=
 Eval vm_compute in mismatches ok cases.
 """ % ";\n".join(items))
         groups.append(i)
-    outs = coq_eval_parallel("c17_tab", bodies, jobs=4)
+    outs = coq_eval_parallel("c17_tab", bodies, jobs=6)
     _t(chk, "coq tables (%d files)" % len(bodies))
     for bi, (g0, o) in enumerate(zip(groups, outs)):
         for k in parse_coq_list(o)[0]:
@@ -458,7 +692,7 @@ Eval vm_compute in mismatches ok cases.
     # ---------------- correspondence 3: programs, Fock state vector vs model and exact minors
     bodies, groups = [], []
     chunk = 8 if T else 20
-    runnable = [i for i, o in enumerate(impl["programs"]) if "state" in o]
+    runnable = [i for i, o in enumerate(impl["programs"]) if "state" in o and finite(o["state"])]
     for i in range(0, len(runnable), chunk):
         ids = runnable[i:i + chunk]
         items = []
@@ -477,7 +711,7 @@ Definition ok (x : nat * list Z * list (gate Qi) * list Qi * option (list (list 
   let '(d, occ, gs, st, pas) := x in
   let psi := qi_run d (S d) occ gs in
   qil_close tol psi st &&
-  Qeq_bool (qsum (probabilities psi)) 1 &&
+  q_close tol (qsum (probabilities psi)) 1 &&
   match pas with
   | Some pg => qil_close tol (qi_minor_amplitudes d occ (qi_total_unitary d pg)) st
   | None => true
@@ -485,7 +719,7 @@ Definition ok (x : nat * list Z * list (gate Qi) * list Qi * option (list (list 
 Eval vm_compute in mismatches ok cases.
 """ % ";\n".join(items))
         groups.append(ids)
-    outs = coq_eval_parallel("c17_prog", bodies, jobs=4)
+    outs = coq_eval_parallel("c17_prog", bodies, jobs=6)
     _t(chk, "coq programs (%d files)" % len(bodies))
     for ids, o in zip(groups, outs):
         for k in parse_coq_list(o)[0]:
@@ -551,72 +785,16 @@ Eval vm_compute in mismatches ok cases.
     # (c) programs: exclusion, normalisation, parity / number conservation, two-simulator differential
     ndiff = 0
     for p, o in zip(programs, impl["programs"]):
-        d = p["d"]
-        tag = json.dumps(describe(p))
-        kinds = "+".join(sorted({g["g"] for g in p["gates"]}))
-        if "fock_error" in o:
-            chk.violation("C17:PureFockSimulator:raises:%s" % kinds, "supported program raises: " + o["fock_error"], describe(p))
-            continue
-        keys = [tuple(k) for k in o["keys"]]
-        neval += len(keys)
-        if sorted(keys) != sorted(itertools.product((0, 1), repeat=d)) or keys != basis(d):
-            chk.violation("C17:fock_probabilities_map:keys", "occupation keys are not every 0/1 vector once, in Fock order", describe(p))
-        if abs(sum(o["probs"]) - 1) > TOL or abs(o["norm"] - 1) > TOL or o["probs_imag"] > TOL or min(o["probs"]) < -TOL:
-            chk.violation("C17:PureFockSimulator:normalisation:%s" % kinds, "probabilities do not sum to one", {"program": describe(p), "sum": sum(o["probs"])})
-        if any(abs(x - y) > TOL for x, y in zip(o["probs"], o["pdp"])):
-            chk.violation("C17:PureFockState.get_particle_detection_probability", "differs from fock_probabilities_map", describe(p))
-        par = sum(p["occ"]) % 2
-        bad = [k for k, pr in zip(keys, o["probs"]) if sum(k) % 2 != par and abs(pr) > 1e-12]
-        if bad:
-            chk.violation("C17:PureFockSimulator:parity:%s" % kinds, "weight on the wrong particle-number parity", {"program": describe(p), "occupations": bad[:4]})
-        if p["label"] == "passive":
-            bad = [k for k, pr in zip(keys, o["probs"]) if sum(k) != sum(p["occ"]) and abs(pr) > 1e-12]
-            if bad:
-                chk.violation("C17:PureFockSimulator:number:%s" % kinds, "passive program changes the particle number", {"program": describe(p), "occupations": bad[:4]})
-            Tm = identity(d)
-            for g in p["gates"]:
-                Tm = mat_mul(embed(d, g["modes"], passive_block(g)), Tm)
-            S = fq(p["occ"])
-            for k, pr, gp in zip(keys, o["probs"], o.get("gprobs", o["probs"])):
-                if sum(k) == len(S):
-                    m = minor(Tm, fq(k), S)
-                    ex = m[0] * m[0] + m[1] * m[1]
-                    neval += 1
-                    if not close(ex, pr):
-                        chk.violation("C17:PureFockSimulator:passive-probability:%s" % kinds, "probability != |det U[out,in]|^2", {"program": describe(p), "out": k, "got": pr, "expected": float(ex)})
-                        break
-                    if not close(ex, gp):
-                        chk.violation("C17:GaussianSimulator:passive-probability:%s" % kinds, "probability != |det U[out,in]|^2", {"program": describe(p), "out": k, "got": gp, "expected": float(ex)})
-                        break
-        if p["label"] == "fock-only":
-            continue
-        if "gaussian_error" in o:
-            chk.violation("C17:GaussianSimulator:raises:%s" % kinds, "supported program raises: " + o["gaussian_error"], describe(p))
-            continue
-        ndiff += 1
-        cov, gcov = o["cov"], o["gcov"]
-        n2 = 2 * d
-        neval += n2 * n2 + len(keys)
-        err = max(abs(cov[i][j] - gcov[i][j]) for i in range(n2) for j in range(n2))
-        if err > 1e-8:
-            chk.violation("C17:covariance:fock-vs-gaussian:%s" % kinds, "covariance matrices of the two simulators differ (max abs diff %.3g)" % err, {"program": describe(p), "fock": cov, "gaussian": gcov})
-        skew = max(abs(gcov[i][j] + gcov[j][i]) for i in range(n2) for j in range(n2))
-        if skew > 1e-8:
-            chk.violation("C17:GaussianState.covariance_matrix:skew", "not skew-symmetric", describe(p))
-        perr = max(abs(x - y) for x, y in zip(o["probs"], o["gprobs"]))
-        if perr > 1e-8:
-            chk.violation("C17:probabilities:fock-vs-gaussian:%s" % kinds, "occupation probabilities of the two simulators differ (max abs diff %.3g)" % perr, {"program": describe(p), "fock": o["probs"], "gaussian": o["gprobs"]})
-        if abs(sum(o["gprobs"]) - 1) > 1e-8:
-            chk.violation("C17:GaussianSimulator:normalisation:%s" % kinds, "Gaussian occupation probabilities do not sum to one", {"program": describe(p), "sum": sum(o["gprobs"])})
-        mean_f = [sum(pr * k[m] for k, pr in zip(keys, o["probs"])) for m in range(d)]
-        if max(abs(x - y) for x, y in zip(mean_f, o["gmean"])) > 1e-8:
-            chk.violation("C17:mean_particle_numbers:fock-vs-gaussian:%s" % kinds, "mean occupation differs", {"program": describe(p), "fock": mean_f, "gaussian": o["gmean"]})
+        ne, nd = judge_program(chk, p, o)
+        neval += ne
+        ndiff += nd
     _t(chk, "search")
     chk.stream("direct statement on the implementation: minors, index tables, exclusion, normalisation, parity/number conservation, exact |minor|^2 for passive programs (search)",
                neval, neval // 2, kind="search")
     chk.stream("differential test (no theorem): covariance matrix, occupation probabilities and mean occupations of fermionic PureFockSimulator vs GaussianSimulator",
                ndiff, sum(1 for p in programs if p["label"] == "mixed"), kind="differential test",
-               samples=[describe(p) for p in programs if p["label"] == "mixed"][:1])
+               samples=[describe(p) for p in programs if p["label"] == "mixed"][:1],
+               note="every real gate parameter also takes the special values 0, +-1e-12, multiples of pi/2 up to 4pi, +-10, negative (alone and at every position of a 3-gate program: %d such programs); a refusal or NaN on one side only is a violation" % sum(1 for p in programs if "special" in p))
 
     chk.assumptions += [
         "beamsplitter / phaseshifter blocks (gates.py:_get_passive_block) are taken as documented ([[t,-conj r],[r,t]], e^{i phi}); they are the subject of C07 and a difference would show as a state-vector mismatch here",
@@ -633,6 +811,6 @@ Eval vm_compute in mismatches ok cases.
     chk.notes.append("Ising-XX on non-adjacent modes (outside the property's quantifier: 'consecutive modes') is not generated; the two simulators are known to differ there (Fock side omits the Jordan-Wigner string).")
     chk.finish(
         rule="rep: matrices with d>=3 and cutoff>=3; tables: d>=3; programs: distinct programs with d>=2 and >=2 gates; differential: programs containing an active gate",
-        explanation="Theorems of coq/theories/Props/C17.v about the Gallina model C17/FermiRepModel.v (rank = position for all d; sector representation = first-row Laplace minor = determinant of the restricted matrix for all d, n; generic = numba variant; index pairs differ in two modes / are diagonal; parity conservation for every gate sequence). Tie = model run by vm_compute on the same inputs (exact Q[i]) against both code variants, the index tables, and the Fock simulator's state vector; search = property stated on the implementation with an independent exact reference in Python fractions; the Gaussian simulator is covered by the labelled differential test.",
+        explanation="Theorems of coq/theories/Props/C17.v about the Gallina model C17/FermiRepModel.v (rank = position for all d; sector representation = first-row Laplace minor = determinant of the restricted matrix for all d, n; generic = numba variant; the full basis loop = specification; index pairs differ in two modes / are diagonal; parity conservation for every gate sequence by induction over the gate list). Tie = model run by vm_compute on the same inputs (exact Q[i]) against both code variants, the index tables, and the Fock simulator's state vector; search = property stated on the implementation with an independent exact reference in Python fractions; the Gaussian simulator is covered by the labelled differential test.",
         correspondence_broken=corr_broken,
     )
